@@ -1,5 +1,6 @@
 import Typegen.TsTyLemmas
 import Typegen.Classes
+import Typegen.ParsePrint
 /-! # C05 — each emitted TypeScript type denotes the JSON shape serde produces
 
 Chain: Rust type expression `r` —`type_to_string`→ string —`parse_type_structure`→ `TypeStructure`
@@ -72,5 +73,25 @@ theorem K05c_witness :
 theorem K05d_witness :
     parseTS 50 "HashMap<(A, B), V>".toList = .map (.custom "(A".toList) (.custom "B), V".toList) :=
   by decide +kernel
+
+
+/-! ## the recogniser reads the printer back: `parse ∘ print = id` -/
+
+/-- **parse ∘ print**: every canonical TypeScript type (dotted identifier names, non-empty tuples and argument lists,
+    unions of at least two non-union members) is read back exactly by `parseTsTy` from its canonical print — the
+    recogniser the oracles of C05 / C10 / C18 rely on is exact on the printer's image, at any depth -/
+theorem C05_parse_print (t : TsTy) (h : PP.Canon t) : parseTsTy (printSpec t) = some t := PP.parse_print t h
+
+/-- **C05 at text level**: for a type structure whose names are identifiers and that has no `Option` directly under an
+    array, the emitted text *parses to* the denotation: `parse (render t) = some (denote t)` -/
+theorem C05_text_parses_to_denotation (t : TS) (hn : PP.identNames t) (hp : precSafe t = true) :
+    parseTsTy (visitTs [] t) = some (tsOf [] t) := PP.render_parses_to_denotation t hn hp
+
+/-- … and from the Rust type expression through the flattened string (L1), for supported, comma-safe expressions -/
+theorem C05_full_chain_partial (r : RTy) (fuel : Nat) (hwf : WF r) (hcs : CommaSafe r) (hf : size r ≤ fuel)
+    (hn : PP.identNames (structOf r)) (hp : precSafe (structOf r) = true) :
+    parseTsTy (visitTs [] (parseTS fuel (str r))) = some (denote [] r) := by
+  rw [L.L1 r fuel hwf hcs hf]
+  exact PP.render_parses_to_denotation _ hn hp
 
 end TG.C05
